@@ -26,9 +26,11 @@ EXTENDS Integers, TLC
 
 CONSTANTS W,          \* width of the machine word
           MaxDepth,   \* number of chained operator applications
-          Bound       \* computed values beyond +-Bound are not fed back
+          Bound,      \* computed values beyond +-Bound are not fed back
+          Dense       \* TRUE: *big.Int / json.Number operands for every integer of the wide range;
+                      \* FALSE: only those near 0, +-2^(W-1), +-2^W (the int operands are always all words)
 
-ASSUME W \in 2..12 /\ MaxDepth \in 1..4
+ASSUME W \in 2..12 /\ MaxDepth \in 1..4 /\ Dense \in BOOLEAN
 
 MinI == -(2^(W-1))
 MaxI == 2^(W-1) - 1
@@ -50,7 +52,9 @@ INSTANCE IntFast WITH MinInt <- MinI, MaxInt <- MaxI, Zero <- 0, MinusOne <- -1,
 (* json.Number "-0", and the integers up to twice the word range (which do  *)
 (* not fit an int) as *big.Int and json.Number.                             *)
 (***************************************************************************)
-Wide == (-(2^W))..(2^W)
+Near(v, c) == IAbs(IAbs(v) - c) <= 3
+Wide == IF Dense THEN (-(2^W))..(2^W)
+        ELSE {v \in (-(2^W))..(2^W) : Near(v, 0) \/ Near(v, 2^(W-1)) \/ Near(v, 2^W) \/ Near(v, 2^(W \div 2))}
 Operands == {GoInt(v) : v \in MinI..MaxI}
             \cup {GoBig(v) : v \in Wide}
             \cup {JNumOf(v) : v \in Wide}
